@@ -19,10 +19,11 @@ def parseEntry (j : Json) : Except String Entry := do
     | [c, v] => pure ((← c.getStr?).toList, (← v.getStr?).toList)
     | _ => throw "entry item: [cat,val] expected")
 
-def parseDictArg (j : Json) : Except String DictArg := do
-  let r ← getNat j "ref"
-  let e ← parseEntry (← j.getObjVal? "init")
-  pure ⟨r, e⟩
+/-- `{"obj": ref}` = a library object obtained earlier ; `{"lit": [[cat,val],…]}` = a dict of the caller -/
+def parseDictArg (j : Json) : Except String DictArg :=
+  match j.getObjVal? "obj" with
+  | .ok r => do pure (.obj (← r.getNat?))
+  | .error _ => do pure (.lit (← parseEntry (← j.getObjVal? "lit")))
 
 def parseItems (j : Json) (k : String) : Except String (List (Lemma × DictArg)) := do
   let a ← getArr j k
@@ -129,7 +130,7 @@ def histOp : Handler := fun j => do
   let st0 : State :=
     { cur := if cur == "fr" then .fr else .en
       en := en.map (fun p => (p.1, p.2.1)), fr := fr.map (fun p => (p.1, p.2.1))
-      heap := fun r => dget r objs, rulesEn := 0, rulesFr := 1 }
+      heap := fun r => dget r objs, fresh := objs.length, rulesEn := 0, rulesFr := 1 }
   let (out, _) := steps.foldl (fun (acc : List Json × State) s =>
     let (a, st') := stepAnswer acc.2 s
     (a :: acc.1, st')) ([], st0)
